@@ -83,11 +83,15 @@ func ChainNameSetup(c *Chain, ctx sdk.Context) {
 }
 
 // CreateTMClient creates on `on` a tendermint client named after `of` from of's last committed header.
-func CreateTMClient(on *Chain, ctx sdk.Context, of *Chain) {
+func CreateTMClient(on *Chain, ctx sdk.Context, of *Chain) { CreateTMClientDelay(on, ctx, of, 0) }
+
+// CreateTMClientDelay creates the tendermint client with a delay period (nanoseconds): proofs at a height are honoured
+// only that long after the header of the height was processed.
+func CreateTMClientDelay(on *Chain, ctx sdk.Context, of *Chain, delay uint64) {
 	h := of.Headers[of.Height()]
 	height := h.GetHeight().(clienttypes.Height)
 	cs := xibctmtypes.NewClientState(of.Name, xibctmtypes.DefaultTrustLevel, TrustingPeriod, UnbondingPeriod, MaxClockDrift,
-		height, commitmenttypes.GetSDKSpecs(), commitmenttypes.MerklePrefix{KeyPrefix: []byte("xibc")}, 0)
+		height, commitmenttypes.GetSDKSpecs(), commitmenttypes.MerklePrefix{KeyPrefix: []byte("xibc")}, delay)
 	must(on.App.XIBCKeeper.ClientKeeper.CreateClient(ctx, of.Name, cs, h.ConsensusState()))
 }
 
